@@ -1,11 +1,11 @@
 SPECIFICATION MSpec
 CONSTANTS
   Ids = {1, 2, 3}
-  RecIds <- RecsAll
+  RecIds <- RecsTiny
   RootId = 1
   PhenoId = 118
   OldCode = FALSE
-  MaxEdges = 3
+  MaxEdges = 2
   MaxFacts = 3
 INVARIANTS
   TypeOK
